@@ -64,6 +64,8 @@ func rulesC07(c *Ctx) {
 	R.Rule("T", "crash / storage-fault table: abstract-store invariants at every reachable position and return", 14)
 	R.Rule("M", "model assumptions on the storage code: multi-row writes atomic, state updates unconditional", 8)
 	R.Rule("R5", "melt decision table (shared with C05.R1)", 20)
+	R.Rule("K", "keysets survive a restart: persisted rows carry the generated keyset's own index, fee and seed; start-up regenerates every keyset from its own row (shared with C09.R2)", 11)
+	c.ruleKeysetWiring("K")
 	c.vocabProblems("G")
 
 	swap := c.op("G", "/v1/swap")
@@ -156,6 +158,33 @@ func rulesC07(c *Ctx) {
 		c.checkAtomicMultiRow("M", role)
 	}
 	c.ruleStateUpdatesKeyedOnly("M")
+
+	// writer census: the abstract store changes only through the storage-interface methods that the effect
+	// graphs model. Any other statement of the module that writes one of its tables (start-up code, a
+	// clean-up job, another package) is outside the model.
+	storeTables := map[string]bool{"proofs": true, "pending_proofs": true, "blind_signatures": true, "mint_quotes": true, "melt_quotes": true, "keysets": true}
+	stray := c.V.StrayStatements()
+	nStray := 0
+	for _, st := range stray {
+		fk := c.P.FuncKey(st.Fn)
+		if st.SQL == nil {
+			nStray++
+			R.Check("M", fk, "statement outside the storage interface is readable", c.P.InstrPos(st.Exec), false,
+				"every SQL statement executed outside the storage-interface methods can be read by the checker", st.Why)
+			continue
+		}
+		if st.SQL.Verb == "SELECT" || !storeTables[st.SQL.Table] {
+			continue
+		}
+		nStray++
+		R.Check("M", fk, st.SQL.Role()+" outside the storage interface", c.P.InstrPos(st.Exec), false,
+			"the tables of the abstract store are written only by storage-interface methods (whose effects the operations' graphs model)",
+			"statement executed in "+fk+": "+short(st.SQL.Raw, 160))
+	}
+	if nStray == 0 {
+		R.Check("M", "module", "no statement outside the storage interface writes a table of the abstract store", "-", true,
+			fmt.Sprintf("the tables of the abstract store are written only by storage-interface methods (%d other statements examined)", len(stray)), "")
+	}
 
 	// ---- R5: decision table
 	c.meltDecisionTable("R5", false)
